@@ -460,9 +460,9 @@ type env struct {
 	group   [][]any // rows of the group
 	keyVals []any   // values of b.groupKeys for this group
 
-	vars       map[string]any // lambda parameters
-	aliasStack []string       // aliases whose definition is being evaluated
-	noBlockAlias string       // alias name to ignore (ARRAY JOIN element aliases)
+	vars         map[string]any // lambda parameters
+	aliasStack   []string       // aliases whose definition is being evaluated
+	noBlockAlias string         // alias name to ignore (ARRAY JOIN element aliases)
 }
 
 func (b *block) rowEnv(rel *relation, row []any) *env { return &env{b: b, rel: rel, row: row} }
